@@ -98,8 +98,28 @@ func trustSummary(p *core.Prog, fn *ssa.Function) *wsummary {
 		return ts([]int{0, 1}, nil, true)
 	case pkg == "fmt", pkg == "errors", pkg == "strconv", pkg == "encoding/hex", pkg == "reflect", pkg == "strings", pkg == "unicode/utf8":
 		return ts(nil, nil, true) // formatting / construction: arguments read-only
-	case pkg == "sync", pkg == "sync/atomic":
-		return ts(nil, nil, true) // synchronisation primitives: their own synchronised interface
+	case pkg == "sync/atomic":
+		// atomics are data, not synchronisation state: a Store/Swap/Add/CompareAndSwap/And/Or writes the word or the
+		// boxed value it is applied to (method receiver, or the address passed first), and what was stored comes back
+		// out of Load/Swap
+		if strings.HasPrefix(m, "Load") {
+			return ts(nil, []int{0}, true)
+		}
+		out := ts([]int{0}, []int{0}, true)
+		if len(fn.Params) > 1 {
+			out.Esc[[2]int{0, len(fn.Params) - 1}] = true
+		}
+		return out
+	case name == "(*sync.Map).Load", name == "(*sync.Map).Range":
+		return ts(nil, []int{0}, true)
+	case strings.HasPrefix(name, "(*sync.Map)."):
+		out := ts([]int{0}, []int{0}, true) // Store, LoadOrStore, Swap, Delete, CompareAndSwap…: the map is data
+		for j := 1; j < len(fn.Params); j++ {
+			out.Esc[[2]int{0, j}] = true
+		}
+		return out
+	case pkg == "sync":
+		return ts(nil, nil, true) // Mutex, RWMutex, WaitGroup, Once, Pool: synchronisation state, not data (pool discipline: rule G6)
 	case pkg == "golang.org/x/sync/errgroup", pkg == "context":
 		return ts(nil, nil, true)
 	case pkg == "runtime", pkg == "math", pkg == "math/bits", pkg == "golang.org/x/sys/cpu", pkg == "os", pkg == "time":
